@@ -122,20 +122,25 @@ func NewChain(w *World) (c *Chain, err error) {
 // NewChainFromState is NewChain with an explicit app state and initial height (used for the
 // export/import round trip).
 func NewChainFromState(w *World, state map[string]json.RawMessage, initialHeight int64) (c *Chain, err error) {
+	return NewChainFromStateAt(w, state, initialHeight, GenesisTime)
+}
+
+// NewChainFromStateAt additionally sets the genesis (InitChain) time.
+func NewChainFromStateAt(w *World, state map[string]json.RawMessage, initialHeight int64, genesisTime time.Time) (c *Chain, err error) {
 	ResetOracleGlobals()
 	defer func() {
 		if r := recover(); r != nil {
 			err = fmt.Errorf("InitChain panicked: %v\n%s", r, debug.Stack())
 		}
 	}()
-	c = &Chain{W: w, DB: dbm.NewMemDB(), Time: GenesisTime, EthNonce: map[string]uint64{}, LzNonce: map[uint64]uint64{}}
+	c = &Chain{W: w, DB: dbm.NewMemDB(), Time: genesisTime, EthNonce: map[string]uint64{}, LzNonce: map[uint64]uint64{}}
 	c.App = newApp(c.DB, w.Cfg.ChainID)
 	stateBytes, err := json.Marshal(state)
 	if err != nil {
 		return nil, err
 	}
 	res := c.App.InitChain(abci.RequestInitChain{
-		Time:            GenesisTime,
+		Time:            genesisTime,
 		ChainId:         w.Cfg.ChainID,
 		Validators:      []abci.ValidatorUpdate{},
 		ConsensusParams: exocoreapp.DefaultConsensusParams,
